@@ -20,6 +20,10 @@ def exact_crystals():
                    basis=[[a([0., 0.])], [a([.125, .25]), a([.875, .25]), a([.125, .75]), a([.875, .75]), a([.5, .5])]],
                    chem=1, cutoff=0.8)
     X['X1s'] = dict(X['X1'], cutoff=0.66)
+    # the same crystal with the lone site listed in the MIDDLE of the 4-orbit: Wyckoff sets interleave in index order ([[0,2,3,4],[1]])
+    X['X1si'] = dict(lattice=a([[1., 0.], [0., 1.25]]),
+                     basis=[[a([0., 0.])], [a([.125, .25]), a([.5, .5]), a([.875, .25]), a([.125, .75]), a([.875, .75])]],
+                     chem=1, cutoff=0.66)
 
     # 2-D p1 oblique, two inequivalent mobile sites: no inversion centre relating... (pinv branch)
     X['X2'] = dict(lattice=a([[1., .25], [0., 1.5]]),
